@@ -374,6 +374,16 @@ func runC10(c *Ctx) {
 		func(k int, rng *rand.Rand) string {
 			return fmt.Sprint("16 goroutines, fresh run-time types with a collecting marshaler inside, case ", k)
 		}, nil)
+	// pooled working storage after failed calls: every goroutine first makes calls that fail half-way
+	// (truncated streams, type errors inside slices and maps), then all decode distinct documents of the
+	// same types concurrently: a pooled object handed out twice shows as one goroutine's elements in
+	// another's result
+	c.Chunk = 1
+	c.CaseBudget = 120
+	c.RunCases("afterfail", 3, func(c *Ctx, k int, rng *rand.Rand) { c10AfterFail(c, k) },
+		func(k int, rng *rand.Rand) string {
+			return fmt.Sprint("failed decodes, then concurrent decodes of the same slice / map types, case ", k)
+		}, nil)
 	// the race build
 	raceExe := os.Getenv("VERIF_HARNESS_RACE_EXE")
 	if raceExe == "" && !c.IsWorker() {
@@ -457,4 +467,60 @@ func c10GCPrograms(c *Ctx, k int) {
 		}(g)
 	}
 	wg.Wait()
+}
+
+type C10Tree struct {
+	V    int
+	Kids []C10Tree
+}
+
+func c10AfterFail(c *Ctx, k int) {
+	json.VerifPoolErrors()
+	// 1. calls that fail after the working storage has been taken (and grown)
+	for _, doc := range []string{"[1,2", "[1,2,3", "[1,2,3,4,5", "[1,2,x]", "[1,", `[[1],[2`, `{"V":1,"Kids":[{"V":2,"Kids":[]}`, `{"a":[1,2`, `["a","b"`, `[{"V":1},{"V":`} {
+		for _, mk := range []func() interface{}{func() interface{} { return new([]int) }, func() interface{} { return new([][]int) }, func() interface{} { return new(C10Tree) },
+			func() interface{} { return new(map[string][]int) }, func() interface{} { return new([]string) }, func() interface{} { return new([]C10Tree) }} {
+			_ = json.NewDecoder(strings.NewReader(doc)).Decode(mk())
+			_ = json.NewDecoder(&chunkReader{data: []byte(doc), size: 1}).Decode(mk())
+			_ = json.Unmarshal([]byte(doc), mk())
+		}
+	}
+	pe := json.VerifPoolErrors()
+	c.Oracle("afterfail/pool-invariant", fmt.Sprintf("case %d: failing decodes of slice / map / tree types", k), strings.Join(pe, "; "), "no pooled object handed back twice or inconsistent", len(pe) == 0, "")
+	// 2. concurrent decodes of distinct documents of the same types
+	var mu sync.Mutex
+	var wg sync.WaitGroup
+	for g := 0; g < 8; g++ {
+		wg.Add(1)
+		go func(g int) {
+			defer wg.Done()
+			for round := 0; round < 40; round++ {
+				n := 40 + (g*7+round)%17
+				var sb strings.Builder
+				sb.WriteByte('[')
+				want := make([]int, n)
+				for i := 0; i < n; i++ {
+					if i > 0 {
+						sb.WriteByte(',')
+					}
+					want[i] = g*1000 + round*50 + i
+					fmt.Fprint(&sb, want[i])
+				}
+				sb.WriteByte(']')
+				var got []int
+				err := json.Unmarshal([]byte(sb.String()), &got)
+				tdoc := fmt.Sprintf(`{"V":%d,"Kids":[{"V":%d,"Kids":[{"V":%d,"Kids":[]}]},{"V":%d,"Kids":[]}]}`, g, g*10+1, g*100+round, g*10+2)
+				var tg, ts C10Tree
+				e2 := json.NewDecoder(strings.NewReader(tdoc)).Decode(&tg)
+				_ = stdjson.Unmarshal([]byte(tdoc), &ts)
+				ok := err == nil && reflect.DeepEqual(got, want) && e2 == nil && reflect.DeepEqual(tg, ts)
+				mu.Lock()
+				c.Oracle("afterfail/concurrent-decodes", fmt.Sprintf("case %d goroutine %d round %d", k, g, round), fmt.Sprintf("err=%v %v tree=%+v", err, trunc([]byte(fmt.Sprint(got))), tg), "its own elements", ok, "")
+				mu.Unlock()
+			}
+		}(g)
+	}
+	wg.Wait()
+	pe = json.VerifPoolErrors()
+	c.Oracle("afterfail/pool-invariant", fmt.Sprintf("case %d: after the concurrent decodes", k), strings.Join(pe, "; "), "no pooled object handed back twice or inconsistent", len(pe) == 0, "")
 }
